@@ -15,12 +15,14 @@ package net
 //@ func (*ProtoSerializer).UnmarshalBinary(x, data)
 //@   ghost entry reached_lookup = false
 //@   at call 1 of FindMessageType ghost reached_lookup = true
+//@   at call 1 of Unmarshal assert payload-is-exactly-the-announced-remainder: len(arg0) == be32(data, 0) - 8 - be32(data, 4) && offset(arg0) == offset(data) + 8 + be32(data, 4)
 //@   ensures accepts-exactly-wellformed-headers: reached_lookup == (len(data) >= 8 && be32(data, 0) >= 8 && be32(data, 0) <= len(data) && 8 + be32(data, 4) <= be32(data, 0))
 //@   ensures malformed-header-is-an-error: !reached_lookup ==> result2 != nil
 
 //@ func (*ProtoSerializer).UnmarshalBinaryWithMetadata(x, data)
 //@   ghost entry reached_lookup = false
 //@   at call 1 of FindMessageType ghost reached_lookup = true
+//@   at call 1 of Unmarshal assert payload-is-exactly-the-announced-remainder: len(arg0) == be32(data, 0) - 12 - be32(data, 4) - be32(data, 8)
 //@   ensures accepts-exactly-wellformed-headers: reached_lookup == (len(data) >= 12 && be32(data, 0) >= 12 && be32(data, 0) <= len(data) && 12 + be32(data, 4) + be32(data, 8) <= be32(data, 0))
 //@   ensures malformed-header-is-an-error: !reached_lookup ==> result3 != nil
 
